@@ -100,3 +100,16 @@ CHECKS = {
     "C04": c04,
     "C05": c05,
 }
+
+# Properties whose check lives in its own module vlib/p_cXX.py (function run(tier, seed)).
+import importlib  # noqa: E402
+
+for _i in range(1, 19):
+    _pid = f"C{_i:02d}"
+    if _pid in CHECKS:
+        continue
+    try:
+        _m = importlib.import_module(f"vlib.p_{_pid.lower()}")
+    except ModuleNotFoundError:
+        continue
+    CHECKS[_pid] = _m.run
